@@ -22,25 +22,42 @@ def _mover_amount(ix, site):
 
 
 def movers_of(ctx):
-    """{fn.key: index of the amount parameter} for the engine functions whose SubMsg moves tokens by a parameter"""
+    """{fn.key: index of the amount parameter} for the lowest-level engine functions that build a token-moving
+    SubMsg whose amount is one of their parameters.  The SubMsg may be assembled through wrappers (a helper that
+    fills in id / reply_on): constructions are collected with call-site substitution, and a candidate that merely
+    forwards its parameter to another candidate is not a leaf."""
     ix, w = ctx.ix, ctx.world
-    movers = {}
+    cand = {}
     for f in w.crate_fns(ENG):
         if f.derived or "::_::" in f.pretty or f.kind == "Closure":
             continue
         try:
-            direct = model._direct_generic(ix, f)
+            if not model.constructs_submsg(ix, f):
+                continue
+            sites = model.reachable_submsgs(ix, f, {})
         except Exception:
             continue
-        for (_p, aggs) in direct:
-            for a in aggs:
-                amt = _mover_amount(ix, model.SubMsgSite(a, f, ()))
-                if amt is None:
-                    continue
-                amt = ix.inline(amt)
-                for i in range(f.arg_count):
-                    if amt == sym.param(f.key, i, f.param_name(i)):
-                        movers[f.key] = i
+        for s in sites:
+            amt = _mover_amount(ix, s)
+            if amt is None:
+                continue
+            amt = ix.inline(amt)
+            for i in range(f.arg_count):
+                if amt == sym.param(f.key, i, f.param_name(i)):
+                    cand.setdefault(f.key, set()).add(i)
+    movers = {}
+    for k, idxs in cand.items():
+        f = w.fns[k]
+        forwards = False
+        try:
+            for p in ix.ok_paths(f):
+                for e in p.events:
+                    if e.target is not None and e.target.key in cand and e.target.key != k:
+                        forwards = True
+        except Exception:
+            pass
+        if not forwards and len(idxs) == 1:
+            movers[k] = next(iter(idxs))
     return movers
 
 
@@ -61,6 +78,10 @@ def nonzero(ix, amount, fs):
             nz = N(ix, ks[0])
             if nz == na or (isinstance(na, tuple) and len(na) == 2 and na[0] == "mag" and na[1] == nz):
                 return True
+        if short in ("is_ok", "is_some") and len(ks) == 1 and o is False and tag(ks[0]) in ("call", "op") \
+                and str(payload(ks[0])[0]).split("::")[-1].split(".")[-1] == "checked_sub" and len(kids(ks[0])) == 2:
+            # a.checked_sub(b) failed: a < b
+            strict.add((N(ix, kids(ks[0])[0]), N(ix, kids(ks[0])[1])))
         if len(ks) == 2 and short in ("lt", "gt", "le", "ge"):
             l, r = N(ix, ks[0]), N(ix, ks[1])
             if (short, o) in (("lt", True), ("ge", False)):
